@@ -181,6 +181,12 @@ impl ObjectStore for ScriptedObjectStore {
                 None => {
                     self.inner.lock().unwrap().objs.insert(key.to_string(), data.to_vec());
                     ev["res"] = json!("ok");
+                    if kind == "seg" {
+                        // what the segment holds (for the judge: a compaction's output against its inputs)
+                        if let Ok(ds) = SegmentReader::open(data).and_then(|r| r.read_all()) {
+                            ev["deltas"] = json!(ds.iter().map(|d| json!([d.key, obs(&d.value)])).collect::<Vec<_>>());
+                        }
+                    }
                     Ok(())
                 }
                 Some("partial") => {
